@@ -36,7 +36,7 @@ theorem parseValue_struct_dict (n : Str) (fs : List Field) (kvs : List (Str × P
 
 theorem parseValue_struct_inst (n c : Str) (fs : List Field) (ifs : List (Str × PV)) (p : Path) :
     parseValue (.struct n fs) (.inst c ifs) p =
-      structResult n (fieldNames fs) (asdictK ifs) p (parseFields fs (asdictK ifs) p) := by
+      structResult n (fieldNames fs) ifs p (parseFields fs ifs p) := by
   simp [parseValue]
 
 theorem okMap_ok {α β : Type} (f : α → β) (r : R α) (b : β) :
